@@ -1026,7 +1026,19 @@ def run(tier: str, seed: int, replay: str | None = None) -> int:
                 base = None
                 chk.correspondence_broken({"level": "observable", "detail": "Model/RustSafety.v under Actual/RustSafetyActual.v disagrees with the "
                                            "implementation and no candidate quirk vector matches all cases"})
-        for case, impl, ver in zip(cases, impls, verdicts):
+        # A listed defect explains a failing run only while the literals it is built on are the recorded ones: when an
+        # obligation or a generated-layer item broke, the faithful model of the UNCHANGED tree (recorded generated layer)
+        # must reproduce the implementation's output too; otherwise the run shows a new deviation inside a listed class.
+        rec_ver = None
+        if chk.broken and not replay:
+            with scratch_dir("tv-c17-rec-") as wd:
+                th = recorded_layer_theories(wd / "recorded")
+                if th is not None:
+                    try:
+                        rec_ver = judge(cases, impls, wd / "r", fn="judge", th=th)
+                    except RuntimeError:
+                        rec_ver = None
+        for ci, (case, impl, ver) in enumerate(zip(cases, impls, verdicts)):
             feats = features(case["items"])
             reported = any(isinstance(r, list) and r for r in impl["runs"])
             nontrivial = reported and any(f.count("-in-") for f in feats)
@@ -1044,7 +1056,7 @@ def run(tier: str, seed: int, replay: str | None = None) -> int:
             if ver is None:
                 continue
             chk.traces_validated += len(case["runs"])
-            for cfg, r, bits in zip(case["runs"], impl["runs"], ver):
+            for ri, (cfg, r, bits) in enumerate(zip(case["runs"], impl["runs"], ver)):
                 if isinstance(r, dict):
                     chk.violation({"reason": "CLI run failed or was inconsistent", "detail": r, "config": cfg, "case": case})
                     continue
@@ -1066,7 +1078,13 @@ def run(tier: str, seed: int, replay: str | None = None) -> int:
                 explained = cand[base or 0] and ideal_ok
                 if explained and not relevant:
                     relevant = live
-                if explained and relevant:
+                recorded_differs = (rec_ver is not None and rec_ver[ci] is not None and ri < len(rec_ver[ci])
+                                    and not bool(rec_ver[ci][ri][3]))
+                if explained and relevant and recorded_differs:
+                    info["reason"] = ("reported calls differ from the documented rule and from what the listed defects (" + ", ".join(relevant) +
+                                      ") did on the unchanged tree: the faithful model with the recorded generated layer does not reproduce this output")
+                    chk.violation(info)
+                elif explained and relevant:
                     for k in relevant:
                         chk.known_finding(k, {"text": case["text"], "config": cfg, "impl": r})
                 else:
